@@ -326,6 +326,10 @@ fn sets(nreq: usize, three: bool) -> Vec<SetSpec> {
         SetSpec { name: "hash-collision-xor-fold([aa]-vs-[bb])", transfers: vec![upload_script(1, 3, &[b"aa"], 0, nreq, 0, "PUT [aa]"), upload_script(1, 3, &[b"bb"], 0, nreq, 0, "PUT [bb]")] },
         SetSpec { name: "same-ends-and-length([sensor-a1x]-vs-[sensor-b1x])", transfers: vec![download_script(1, &[b"sensor-a1x"], 0, nreq, "GET a"), download_script(1, &[b"sensor-b1x"], 0, nreq, "GET b")] },
         SetSpec { name: "long-common-prefix(300B)", transfers: vec![upload_script(1, 3, &[&[b'k'; 300][..], b"1"], 0, nreq, 0, "PUT k..,1"), upload_script(1, 3, &[&[b'k'; 300][..], b"2"], 0, nreq, 0, "PUT k..,2")] },
+        // same concatenation and segment count, another boundary
+        SetSpec { name: "boundary-shift([ab,c]-vs-[a,bc])", transfers: vec![upload_script(1, 3, &[b"ab", b"c"], 0, nreq, 0, "PUT [ab,c]"), upload_script(1, 3, &[b"a", b"bc"], 0, nreq, 0, "PUT [a,bc]")] },
+        SetSpec { name: "boundary-shift([,fw]-vs-[fw,])", transfers: vec![download_script(1, &[b"", b"fw"], 0, nreq, "GET [,fw]"), download_script(1, &[b"fw", b""], 0, nreq, "GET [fw,]")] },
+        SetSpec { name: "boundary-shift([fw,,slot]-vs-[fw,slot,])", transfers: vec![upload_script(1, 3, &[b"fw", b"", b"slot"], 0, nreq, 0, "PUT [fw,,slot]"), upload_script(1, 3, &[b"fw", b"slot", b""], 0, nreq, 0, "PUT [fw,slot,]")] },
         // a flattened key with one-byte length prefixes: a 257-byte segment whose length byte wraps to 1
         SetSpec { name: "length-prefix-wrap(257B-segment-vs-[f,a*127,b*127])", transfers: vec![download_script(1, &[&{ let mut v = vec![b'f', 0x7f]; v.extend_from_slice(&[b'a'; 127]); v.push(0x7f); v.extend_from_slice(&[b'b'; 127]); v }[..]], 0, nreq, "GET [257B]"), download_script(1, &[b"f", &[b'a'; 127][..], &[b'b'; 127][..]], 0, nreq, "GET [f,a*127,b*127]")] },
         // a GET that resumes at a later block next to another method's open block-wise reply on the same path
